@@ -157,12 +157,12 @@ pub open spec fn reach(g: ModuleGraph, o: WOpts, roots: Seq<&Url>, t: Url) -> bo
 pub open spec fn opts_of<'a, 'o>(it: ModuleEntryIterator<'a, 'o>) -> WOpts<'o> {
     WOpts { follow_dynamic: it.follow_dynamic, kind: it.kind, check_js: it.check_js, prefer_fc: it.prefer_fast_check_graph }
 }
-pub open spec fn seen(it: ModuleEntryIterator, t: Url) -> bool { it.seen@.contains(&t) }
+pub open spec fn is_seen(it: ModuleEntryIterator, t: Url) -> bool { it.seen@.contains(&t) }
 pub open spec fn queued(it: ModuleEntryIterator, t: Url) -> bool {
     exists|i: int| 0 <= i < it.visiting@.len() && *(#[trigger] it.visiting@[i]) == t
 }
 /// taken from the queue already
-pub open spec fn done(it: ModuleEntryIterator, t: Url) -> bool { seen(it, t) && !queued(it, t) }
+pub open spec fn done(it: ModuleEntryIterator, t: Url) -> bool { is_seen(it, t) && !queued(it, t) }
 
 /// representation invariant: the queue has no duplicates and holds only seen specifiers
 pub open spec fn wf(it: ModuleEntryIterator) -> bool {
@@ -177,8 +177,19 @@ pub open spec fn same_config(a: ModuleEntryIterator, b: ModuleEntryIterator) -> 
 /// effect of pushing the targets of `deps` (analyze_module_deps)
 pub open spec fn pushed_deps(a: ModuleEntryIterator, b: ModuleEntryIterator, deps: Seq<Dependency>) -> bool {
     &&& same_config(a, b) && a.previous_module == b.previous_module
-    &&& forall|t: Url| seen(b, t) <==> (seen(a, t) || is_dep_target(opts_of(a), deps, t))
-    &&& forall|t: Url| queued(b, t) <==> (queued(a, t) || (seen(b, t) && !seen(a, t)))
+    &&& forall|t: Url| is_seen(b, t) <==> (is_seen(a, t) || is_dep_target(opts_of(a), deps, t))
+    &&& forall|t: Url| queued(b, t) <==> (queued(a, t) || (is_seen(b, t) && !is_seen(a, t)))
+}
+
+/// `r` is closed under the walk's edges
+pub open spec fn edge_closed(g: ModuleGraph, o: WOpts, r: spec_fn(Url) -> bool) -> bool {
+    forall|x: Url, t: Url| r(x) && #[trigger] edge(g, o, x, t) ==> r(t)
+}
+/// everything seen in `y` lies in every edge-closed set that contains what was seen in `x`
+/// (so nothing is seen "out of thin air": the seen set only grows along edges)
+pub open spec fn grows_along_edges(g: ModuleGraph, o: WOpts, x: ModuleEntryIterator, y: ModuleEntryIterator) -> bool {
+    forall|r: spec_fn(Url) -> bool| #[trigger] edge_closed(g, o, r) && (forall|t: Url| is_seen(x, t) ==> r(t))
+        ==> (forall|t: Url| is_seen(y, t) ==> r(t))
 }
 
 /// the transition relation of one `next()` call, at the level of sets
@@ -190,10 +201,14 @@ pub open spec fn next_rel(a: ModuleEntryIterator, b: ModuleEntryIterator, r: Opt
     &&& same_config(a, b)
     // the seen set grows exactly by the expansion of the previously yielded entry and by the
     // types dependencies of what was taken from the queue
-    &&& forall|t: Url| seen(b, t) <==> (seen(a, t) || expands_to(o, prev, t) || exists|p: Url| newly_done(p) && #[trigger] on_pop(g, o, p, t))
+    &&& forall|t: Url| is_seen(b, t) <==> (is_seen(a, t) || expands_to(o, prev, t) || exists|p: Url| newly_done(p) && #[trigger] on_pop(g, o, p, t))
     // queue: only newly seen specifiers enter it; what was done stays done
-    &&& forall|t: Url| queued(b, t) ==> (queued(a, t) || (seen(b, t) && !seen(a, t)))
+    &&& forall|t: Url| queued(b, t) ==> (queued(a, t) || (is_seen(b, t) && !is_seen(a, t)))
     &&& forall|t: Url| done(a, t) ==> done(b, t)
+    // ... and only along edges: any edge-closed set containing the old seen set and the expansion
+    // of the previously yielded entry contains the new seen set
+    &&& forall|r: spec_fn(Url) -> bool| #[trigger] edge_closed(g, o, r) && (forall|t: Url| is_seen(a, t) ==> r(t)) && (forall|t: Url| expands_to(o, prev, t) ==> r(t))
+          ==> (forall|t: Url| is_seen(b, t) ==> r(t))
     // everything taken from the queue but not returned is something the walk does not yield
     &&& forall|p: Url| newly_done(p) && (r is None || *r.unwrap().0 != p) ==> !#[trigger] yields(g, o, p)
     &&& match r {
@@ -214,8 +229,8 @@ pub open spec fn res_targets_upto(rs: Seq<&Resolution>, n: int, t: Url) -> bool 
 /// effect of pushing not-yet-seen targets characterised by `p`
 pub open spec fn pushed(a: ModuleEntryIterator, b: ModuleEntryIterator, p: spec_fn(Url) -> bool) -> bool {
     &&& same_config(a, b) && a.previous_module == b.previous_module
-    &&& forall|t: Url| seen(b, t) <==> (seen(a, t) || p(t))
-    &&& forall|t: Url| queued(b, t) <==> (queued(a, t) || (seen(b, t) && !seen(a, t)))
+    &&& forall|t: Url| is_seen(b, t) <==> (is_seen(a, t) || p(t))
+    &&& forall|t: Url| queued(b, t) <==> (queued(a, t) || (is_seen(b, t) && !is_seen(a, t)))
 }
 
 /// one `if seen.insert(s) { visiting.push_front(s) }` step
@@ -223,35 +238,42 @@ pub proof fn lemma_push_step(a: ModuleEntryIterator, b: ModuleEntryIterator, s: 
     requires
         wf(a), same_config(a, b), a.previous_module == b.previous_module,
         b.seen@ == a.seen@.insert(s),
-        b.visiting@ == (if a.seen@.contains(s) { a.visiting@ } else { seq![s] + a.visiting@ }),
+        // queued anywhere (front, back, ...): the order of the queue is not part of the property
+        a.seen@.contains(s) ==> b.visiting@ == a.visiting@,
+        !a.seen@.contains(s) ==> exists|k: int| 0 <= k <= a.visiting@.len() && b.visiting@ == #[trigger] a.visiting@.insert(k, s),
     ensures
         wf(b),
-        forall|t: Url| seen(b, t) <==> (seen(a, t) || t == *s),
-        forall|t: Url| queued(b, t) <==> (queued(a, t) || (seen(b, t) && !seen(a, t))),
+        forall|t: Url| is_seen(b, t) <==> (is_seen(a, t) || t == *s),
+        forall|t: Url| queued(b, t) <==> (queued(a, t) || (is_seen(b, t) && !is_seen(a, t))),
 {
     if a.seen@.contains(s) {
         assert(b.seen@ =~= a.seen@);
     } else {
-        let v = seq![s] + a.visiting@;
-        assert(v[0] == s);
-        assert forall|i: int| 1 <= i < v.len() implies #[trigger] v[i] == a.visiting@[i - 1] by {}
-        assert forall|i: int| 0 <= i < b.visiting@.len() implies b.seen@.contains(#[trigger] b.visiting@[i]) by {
-            if i > 0 { assert(b.visiting@[i] == a.visiting@[i - 1]); }
+        let k = choose|k: int| 0 <= k <= a.visiting@.len() && b.visiting@ == #[trigger] a.visiting@.insert(k, s);
+        let u = a.visiting@;
+        let v = b.visiting@;
+        assert(v.len() == u.len() + 1);
+        assert(v[k] == s);
+        assert forall|i: int| 0 <= i < v.len() && i != k implies #[trigger] v[i] == u[if i < k { i } else { i - 1 }] by {}
+        assert forall|i: int| 0 <= i < v.len() implies b.seen@.contains(#[trigger] v[i]) by {
+            if i != k { assert(v[i] == u[if i < k { i } else { i - 1 }]); }
         }
-        assert forall|i: int, j: int| 0 <= i < j < b.visiting@.len() implies *b.visiting@[i] != *b.visiting@[j] by {
-            assert(b.visiting@[j] == a.visiting@[j - 1]);
-            if i == 0 { assert(a.seen@.contains(a.visiting@[j - 1])); } else { assert(b.visiting@[i] == a.visiting@[i - 1]); }
+        assert forall|i: int, j: int| 0 <= i < j < v.len() implies *v[i] != *v[j] by {
+            if i != k { assert(v[i] == u[if i < k { i } else { i - 1 }]); assert(a.seen@.contains(u[if i < k { i } else { i - 1 }])); }
+            if j != k { assert(v[j] == u[if j < k { j } else { j - 1 }]); assert(a.seen@.contains(u[if j < k { j } else { j - 1 }])); }
         }
-        assert forall|t: Url| queued(b, t) <==> (queued(a, t) || (seen(b, t) && !seen(a, t))) by {
+        assert forall|t: Url| queued(b, t) <==> (queued(a, t) || (is_seen(b, t) && !is_seen(a, t))) by {
             if queued(b, t) {
-                let i = choose|i: int| 0 <= i < b.visiting@.len() && *(#[trigger] b.visiting@[i]) == t;
-                if i > 0 { assert(*a.visiting@[i - 1] == t); }
+                let i = choose|i: int| 0 <= i < v.len() && *(#[trigger] v[i]) == t;
+                if i != k { assert(*u[if i < k { i } else { i - 1 }] == t); }
             }
             if queued(a, t) {
-                let i = choose|i: int| 0 <= i < a.visiting@.len() && *(#[trigger] a.visiting@[i]) == t;
-                assert(*b.visiting@[i + 1] == t);
+                let i = choose|i: int| 0 <= i < u.len() && *(#[trigger] u[i]) == t;
+                let i2 = if i < k { i } else { i + 1 };
+                assert(v[i2] == u[i]);
+                assert(*v[i2] == t);
             }
-            if seen(b, t) && !seen(a, t) { assert(*b.visiting@[0] == t); }
+            if is_seen(b, t) && !is_seen(a, t) { assert(*v[k] == t); }
         }
     }
 }
@@ -262,26 +284,30 @@ verus! {
 /// taking the head of the queue
 pub proof fn lemma_pop_step(a: ModuleEntryIterator, b: ModuleEntryIterator, p: &Url)
     requires
-        wf(a), same_config(a, b), a.visiting@.len() > 0, p == a.visiting@[0],
-        b.visiting@ == a.visiting@.subrange(1, a.visiting@.len() as int), b.seen@ == a.seen@,
+        wf(a), same_config(a, b), b.seen@ == a.seen@,
+        // taken from anywhere in the queue (front, back, ...)
+        exists|k: int| 0 <= k < a.visiting@.len() && p == a.visiting@[k] && b.visiting@ == #[trigger] a.visiting@.remove(k),
     ensures
         wf(b), done(b, *p), queued(a, *p),
         forall|t: Url| t != *p ==> (queued(b, t) <==> queued(a, t)),
-        forall|t: Url| seen(b, t) <==> seen(a, t),
+        forall|t: Url| is_seen(b, t) <==> is_seen(a, t),
 {
+    let k = choose|k: int| 0 <= k < a.visiting@.len() && p == a.visiting@[k] && b.visiting@ == #[trigger] a.visiting@.remove(k);
     let v = a.visiting@;
     let w = b.visiting@;
-    assert forall|i: int| 0 <= i < w.len() implies #[trigger] w[i] == v[i + 1] by {}
-    assert forall|i: int| 0 <= i < w.len() implies b.seen@.contains(#[trigger] w[i]) by { assert(w[i] == v[i + 1]); }
-    assert forall|i: int, j: int| 0 <= i < j < w.len() implies *w[i] != *w[j] by { assert(w[i] == v[i + 1]); assert(w[j] == v[j + 1]); }
-    assert(a.seen@.contains(v[0]));
+    assert forall|i: int| 0 <= i < w.len() implies #[trigger] w[i] == v[if i < k { i } else { i + 1 }] by {}
+    assert forall|i: int| 0 <= i < w.len() implies b.seen@.contains(#[trigger] w[i]) by { assert(w[i] == v[if i < k { i } else { i + 1 }]); }
+    assert forall|i: int, j: int| 0 <= i < j < w.len() implies *w[i] != *w[j] by {
+        assert(w[i] == v[if i < k { i } else { i + 1 }]); assert(w[j] == v[if j < k { j } else { j + 1 }]);
+    }
+    assert(a.seen@.contains(v[k]));
     if queued(b, *p) {
         let i = choose|i: int| 0 <= i < w.len() && *(#[trigger] w[i]) == *p;
-        assert(w[i] == v[i + 1]);
+        assert(w[i] == v[if i < k { i } else { i + 1 }]);
     }
     assert forall|t: Url| t != *p implies (queued(b, t) <==> queued(a, t)) by {
-        if queued(b, t) { let i = choose|i: int| 0 <= i < w.len() && *(#[trigger] w[i]) == t; assert(*v[i + 1] == t); }
-        if queued(a, t) { let i = choose|i: int| 0 <= i < v.len() && *(#[trigger] v[i]) == t; assert(i > 0); assert(*w[i - 1] == t); }
+        if queued(b, t) { let i = choose|i: int| 0 <= i < w.len() && *(#[trigger] w[i]) == t; assert(*v[if i < k { i } else { i + 1 }] == t); }
+        if queued(a, t) { let i = choose|i: int| 0 <= i < v.len() && *(#[trigger] v[i]) == t; assert(i != k); assert(*w[if i < k { i } else { i - 1 }] == t); }
     }
 }
 
@@ -292,23 +318,24 @@ verus! {
 pub open spec fn expanded(a: ModuleEntryIterator, st1: ModuleEntryIterator) -> bool {
     let o = opts_of(a);
     &&& wf(st1) && same_config(a, st1) && st1.previous_module is None
-    &&& forall|t: Url| seen(st1, t) <==> (seen(a, t) || expands_to(o, opt_entry_val(a.previous_module), t))
-    &&& forall|t: Url| queued(st1, t) <==> (queued(a, t) || (seen(st1, t) && !seen(a, t)))
+    &&& forall|t: Url| is_seen(st1, t) <==> (is_seen(a, t) || expands_to(o, opt_entry_val(a.previous_module), t))
+    &&& forall|t: Url| queued(st1, t) <==> (queued(a, t) || (is_seen(st1, t) && !is_seen(a, t)))
 }
 /// one iteration of the queue loop: `p` is taken from the queue, its types dependency is pushed
 pub open spec fn step(g: ModuleGraph, o: WOpts, s0: ModuleEntryIterator, cur: ModuleEntryIterator, p: Url) -> bool {
     &&& wf(s0) && wf(cur) && same_config(s0, cur)
     &&& queued(s0, p) && done(cur, p)
-    &&& forall|t: Url| seen(cur, t) <==> (seen(s0, t) || on_pop(g, o, p, t))
-    &&& forall|t: Url| t != p ==> (queued(cur, t) <==> (queued(s0, t) || (seen(cur, t) && !seen(s0, t))))
+    &&& forall|t: Url| is_seen(cur, t) <==> (is_seen(s0, t) || on_pop(g, o, p, t))
+    &&& forall|t: Url| t != p ==> (queued(cur, t) <==> (queued(s0, t) || (is_seen(cur, t) && !is_seen(s0, t))))
 }
 /// loop invariant of the queue loop, relative to the state `st1` it started from
 pub open spec fn loop_inv(g: ModuleGraph, o: WOpts, st1: ModuleEntryIterator, cur: ModuleEntryIterator) -> bool {
     &&& wf(cur) && same_config(st1, cur)
-    &&& forall|t: Url| seen(cur, t) <==> (seen(st1, t) || exists|p: Url| done(cur, p) && !done(st1, p) && #[trigger] on_pop(g, o, p, t))
-    &&& forall|t: Url| queued(cur, t) ==> (queued(st1, t) || (seen(cur, t) && !seen(st1, t)))
+    &&& forall|t: Url| is_seen(cur, t) <==> (is_seen(st1, t) || exists|p: Url| done(cur, p) && !done(st1, p) && #[trigger] on_pop(g, o, p, t))
+    &&& forall|t: Url| queued(cur, t) ==> (queued(st1, t) || (is_seen(cur, t) && !is_seen(st1, t)))
     &&& forall|t: Url| done(st1, t) ==> done(cur, t)
     &&& forall|p: Url| done(cur, p) && !done(st1, p) ==> !#[trigger] yields(g, o, p)
+    &&& grows_along_edges(g, o, st1, cur)
 }
 
 pub proof fn lemma_loop_init(g: ModuleGraph, o: WOpts, st1: ModuleEntryIterator)
@@ -324,10 +351,10 @@ pub proof fn lemma_loop_step(g: ModuleGraph, o: WOpts, st1: ModuleEntryIterator,
     assert(!done(st1, p)) by {
         if done(st1, p) { assert(done(s0, p)); }
     }
-    assert forall|t: Url| seen(cur, t) <==> (seen(st1, t) || exists|q: Url| done(cur, q) && !done(st1, q) && #[trigger] on_pop(g, o, q, t)) by {
-        if seen(cur, t) {
-            if seen(s0, t) {
-                if !seen(st1, t) {
+    assert forall|t: Url| is_seen(cur, t) <==> (is_seen(st1, t) || exists|q: Url| done(cur, q) && !done(st1, q) && #[trigger] on_pop(g, o, q, t)) by {
+        if is_seen(cur, t) {
+            if is_seen(s0, t) {
+                if !is_seen(st1, t) {
                     let q = choose|q: Url| done(s0, q) && !done(st1, q) && #[trigger] on_pop(g, o, q, t);
                     assert(done(cur, q)) by { lemma_done_mono(g, o, s0, cur, p, q); }
                 }
@@ -342,9 +369,9 @@ pub proof fn lemma_loop_step(g: ModuleGraph, o: WOpts, st1: ModuleEntryIterator,
             }
         }
     }
-    assert forall|t: Url| queued(cur, t) implies (queued(st1, t) || (seen(cur, t) && !seen(st1, t))) by {
+    assert forall|t: Url| queued(cur, t) implies (queued(st1, t) || (is_seen(cur, t) && !is_seen(st1, t))) by {
         assert(t != p);
-        if queued(s0, t) { } else { assert(seen(cur, t) && !seen(s0, t)); }
+        if queued(s0, t) { } else { assert(is_seen(cur, t) && !is_seen(s0, t)); }
     }
     assert forall|t: Url| done(st1, t) implies done(cur, t) by {
         assert(done(s0, t));
@@ -352,6 +379,26 @@ pub proof fn lemma_loop_step(g: ModuleGraph, o: WOpts, st1: ModuleEntryIterator,
     }
     assert forall|q: Url| done(cur, q) && !done(st1, q) implies !#[trigger] yields(g, o, q) by {
         if q != p { lemma_done_back(g, o, s0, cur, p, q); }
+    }
+    lemma_step_grows(g, o, st1, s0, cur, p);
+}
+pub proof fn lemma_step_grows(g: ModuleGraph, o: WOpts, st1: ModuleEntryIterator, s0: ModuleEntryIterator, cur: ModuleEntryIterator, p: Url)
+    requires grows_along_edges(g, o, st1, s0), step(g, o, s0, cur, p),
+    ensures grows_along_edges(g, o, st1, cur),
+{
+    assert forall|r: spec_fn(Url) -> bool| #[trigger] edge_closed(g, o, r) && (forall|t: Url| is_seen(st1, t) ==> r(t))
+        implies (forall|t: Url| is_seen(cur, t) ==> r(t)) by {
+        assert forall|t: Url| is_seen(cur, t) implies r(t) by {
+            if !is_seen(s0, t) {
+                assert(on_pop(g, o, p, t));
+                assert(edge(g, o, p, t));
+                // p was queued, hence seen, hence in r
+                let i = choose|i: int| 0 <= i < s0.visiting@.len() && *(#[trigger] s0.visiting@[i]) == p;
+                assert(s0.seen@.contains(s0.visiting@[i]));
+                assert(is_seen(s0, p));
+                assert(r(p));
+            }
+        }
     }
 }
 pub proof fn lemma_done_mono(g: ModuleGraph, o: WOpts, s0: ModuleEntryIterator, cur: ModuleEntryIterator, p: Url, q: Url)
@@ -364,7 +411,7 @@ pub proof fn lemma_done_back(g: ModuleGraph, o: WOpts, s0: ModuleEntryIterator, 
     requires step(g, o, s0, cur, p), done(cur, q), q != p,
     ensures done(s0, q),
 {
-    if !seen(s0, q) { assert(queued(cur, q)); }
+    if !is_seen(s0, q) { assert(queued(cur, q)); }
 }
 
 /// `done` relative to the state before the expansion phase
@@ -374,7 +421,7 @@ pub proof fn lemma_expanded_done(a: ModuleEntryIterator, st1: ModuleEntryIterato
 {
     if done(a, p) { assert(!queued(st1, p)); }
     if done(st1, p) {
-        if !seen(a, p) { assert(queued(st1, p)); }
+        if !is_seen(a, p) { assert(queued(st1, p)); }
     }
 }
 
@@ -397,10 +444,10 @@ pub proof fn lemma_finish_some(a: ModuleEntryIterator, st1: ModuleEntryIterator,
     let o = opts_of(a);
     // treat the yielded specifier like any other step for the set bookkeeping, except clause (D)
     assert(!done(st1, *s)) by { if done(st1, *s) { assert(done(s0, *s)); } }
-    assert forall|t: Url| seen(fin, t) <==> (seen(st1, t) || exists|q: Url| done(fin, q) && !done(st1, q) && #[trigger] on_pop(g, o, q, t)) by {
-        if seen(cur, t) {
-            if seen(s0, t) {
-                if !seen(st1, t) {
+    assert forall|t: Url| is_seen(fin, t) <==> (is_seen(st1, t) || exists|q: Url| done(fin, q) && !done(st1, q) && #[trigger] on_pop(g, o, q, t)) by {
+        if is_seen(cur, t) {
+            if is_seen(s0, t) {
+                if !is_seen(st1, t) {
                     let q = choose|q: Url| done(s0, q) && !done(st1, q) && #[trigger] on_pop(g, o, q, t);
                     lemma_done_mono(g, o, s0, cur, *s, q);
                 }
@@ -411,13 +458,20 @@ pub proof fn lemma_finish_some(a: ModuleEntryIterator, st1: ModuleEntryIterator,
             if q != *s { lemma_done_back(g, o, s0, cur, *s, q); }
         }
     }
-    assert forall|t: Url| queued(fin, t) implies (queued(st1, t) || (seen(fin, t) && !seen(st1, t))) by {
+    assert forall|t: Url| queued(fin, t) implies (queued(st1, t) || (is_seen(fin, t) && !is_seen(st1, t))) by {
         assert(t != *s);
-        if queued(s0, t) { } else { assert(seen(cur, t) && !seen(s0, t)); }
+        if queued(s0, t) { } else { assert(is_seen(cur, t) && !is_seen(s0, t)); }
     }
     assert forall|t: Url| done(st1, t) implies done(fin, t) by { assert(done(s0, t)); lemma_done_mono(g, o, s0, cur, *s, t); }
     assert forall|q: Url| done(fin, q) && !done(st1, q) && q != *s implies !#[trigger] yields(g, o, q) by {
         lemma_done_back(g, o, s0, cur, *s, q);
+    }
+    lemma_step_grows(g, o, st1, s0, cur, *s);
+    assert(grows_along_edges(g, o, st1, fin)) by {
+        assert forall|r: spec_fn(Url) -> bool| #[trigger] edge_closed(g, o, r) && (forall|t: Url| is_seen(st1, t) ==> r(t))
+            implies (forall|t: Url| is_seen(fin, t) ==> r(t)) by {
+            assert forall|t: Url| is_seen(fin, t) implies r(t) by { assert(is_seen(cur, t)); }
+        }
     }
     lemma_finish_glue(a, st1, fin, Some((s, e)));
 }
@@ -433,9 +487,10 @@ proof fn lemma_finish_common(a: ModuleEntryIterator, st1: ModuleEntryIterator, f
 proof fn lemma_finish_glue(a: ModuleEntryIterator, st1: ModuleEntryIterator, fin: ModuleEntryIterator, r: Option<(&Url, ModuleEntryRef)>)
     requires
         wf(a), expanded(a, st1), wf(fin), same_config(st1, fin),
-        forall|t: Url| seen(fin, t) <==> (seen(st1, t) || exists|q: Url| done(fin, q) && !done(st1, q) && #[trigger] on_pop(*a.graph, opts_of(a), q, t)),
-        forall|t: Url| queued(fin, t) ==> (queued(st1, t) || (seen(fin, t) && !seen(st1, t))),
+        forall|t: Url| is_seen(fin, t) <==> (is_seen(st1, t) || exists|q: Url| done(fin, q) && !done(st1, q) && #[trigger] on_pop(*a.graph, opts_of(a), q, t)),
+        forall|t: Url| queued(fin, t) ==> (queued(st1, t) || (is_seen(fin, t) && !is_seen(st1, t))),
         forall|t: Url| done(st1, t) ==> done(fin, t),
+        grows_along_edges(*a.graph, opts_of(a), st1, fin),
         forall|q: Url| done(fin, q) && !done(st1, q) && (r is None || *r.unwrap().0 != q) ==> !#[trigger] yields(*a.graph, opts_of(a), q),
         match r {
             Some((s, e)) => done(fin, *s) && !done(st1, *s) && yields(*a.graph, opts_of(a), *s) && entry_val(e) == entry_of(*a.graph, *s) && fin.previous_module == Some(e),
@@ -447,7 +502,7 @@ proof fn lemma_finish_glue(a: ModuleEntryIterator, st1: ModuleEntryIterator, fin
     let o = opts_of(a);
     let prev = opt_entry_val(a.previous_module);
     assert forall|p: Url| (done(fin, p) && !done(a, p)) <==> (done(fin, p) && !done(st1, p)) by { lemma_expanded_done(a, st1, p); }
-    assert forall|t: Url| seen(fin, t) <==> (seen(a, t) || expands_to(o, prev, t) || exists|p: Url| (done(fin, p) && !done(a, p)) && #[trigger] on_pop(g, o, p, t)) by {
+    assert forall|t: Url| is_seen(fin, t) <==> (is_seen(a, t) || expands_to(o, prev, t) || exists|p: Url| (done(fin, p) && !done(a, p)) && #[trigger] on_pop(g, o, p, t)) by {
         if exists|q: Url| done(fin, q) && !done(st1, q) && #[trigger] on_pop(g, o, q, t) {
             let q = choose|q: Url| done(fin, q) && !done(st1, q) && #[trigger] on_pop(g, o, q, t);
             lemma_expanded_done(a, st1, q);
@@ -457,8 +512,12 @@ proof fn lemma_finish_glue(a: ModuleEntryIterator, st1: ModuleEntryIterator, fin
             lemma_expanded_done(a, st1, q);
         }
     }
-    assert forall|t: Url| queued(fin, t) implies (queued(a, t) || (seen(fin, t) && !seen(a, t))) by { }
+    assert forall|t: Url| queued(fin, t) implies (queued(a, t) || (is_seen(fin, t) && !is_seen(a, t))) by { }
     assert forall|t: Url| done(a, t) implies done(fin, t) by { lemma_expanded_done(a, st1, t); }
+    assert forall|r2: spec_fn(Url) -> bool| #[trigger] edge_closed(g, o, r2) && (forall|t: Url| is_seen(a, t) ==> r2(t)) && (forall|t: Url| expands_to(o, prev, t) ==> r2(t))
+        implies (forall|t: Url| is_seen(fin, t) ==> r2(t)) by {
+        assert forall|t: Url| is_seen(st1, t) implies r2(t) by { }
+    }
     assert forall|p: Url| (done(fin, p) && !done(a, p)) && (r is None || *r.unwrap().0 != p) implies !#[trigger] yields(g, o, p) by { lemma_expanded_done(a, st1, p); }
     match r { Some((s, e)) => { lemma_expanded_done(a, st1, *s); }, None => { } }
 }
@@ -472,12 +531,12 @@ pub proof fn lemma_next_rel_views(a: ModuleEntryIterator, x: ModuleEntryIterator
         x.visiting@ == y.visiting@, x.seen@ == y.seen@, same_config(x, y), x.previous_module == y.previous_module,
     ensures next_rel(a, y, r), wf(y),
 {
-    assert forall|t: Url| (seen(x, t) <==> seen(y, t)) && (queued(x, t) <==> queued(y, t)) && (done(x, t) <==> done(y, t)) by { }
+    assert forall|t: Url| (is_seen(x, t) <==> is_seen(y, t)) && (queued(x, t) <==> queued(y, t)) && (done(x, t) <==> done(y, t)) by { }
     let g = *a.graph;
     let o = opts_of(a);
     let prev = opt_entry_val(a.previous_module);
-    assert forall|t: Url| seen(y, t) <==> (seen(a, t) || expands_to(o, prev, t) || exists|p: Url| (done(y, p) && !done(a, p)) && #[trigger] on_pop(g, o, p, t)) by {
-        assert(seen(x, t) <==> (seen(a, t) || expands_to(o, prev, t) || exists|p: Url| (done(x, p) && !done(a, p)) && #[trigger] on_pop(g, o, p, t)));
+    assert forall|t: Url| is_seen(y, t) <==> (is_seen(a, t) || expands_to(o, prev, t) || exists|p: Url| (done(y, p) && !done(a, p)) && #[trigger] on_pop(g, o, p, t)) by {
+        assert(is_seen(x, t) <==> (is_seen(a, t) || expands_to(o, prev, t) || exists|p: Url| (done(x, p) && !done(a, p)) && #[trigger] on_pop(g, o, p, t)));
         if exists|p: Url| (done(x, p) && !done(a, p)) && #[trigger] on_pop(g, o, p, t) {
             let p = choose|p: Url| (done(x, p) && !done(a, p)) && #[trigger] on_pop(g, o, p, t);
             assert(done(y, p));
@@ -487,5 +546,286 @@ pub proof fn lemma_next_rel_views(a: ModuleEntryIterator, x: ModuleEntryIterator
             assert(done(x, p));
         }
     }
+    assert forall|r2: spec_fn(Url) -> bool| #[trigger] edge_closed(g, o, r2) && (forall|t: Url| is_seen(a, t) ==> r2(t)) && (forall|t: Url| expands_to(o, prev, t) ==> r2(t))
+        implies (forall|t: Url| is_seen(y, t) ==> r2(t)) by {
+        assert forall|t: Url| is_seen(y, t) implies r2(t) by { assert(is_seen(x, t)); }
+    }
+}
+} // verus!
+verus! {
+pub open spec fn wopts(w: WalkOptions) -> WOpts {
+    WOpts { follow_dynamic: w.follow_dynamic, kind: w.kind, check_js: w.check_js, prefer_fc: w.prefer_fast_check_graph }
+}
+/// the state a walk starts in: exactly the roots and the targets of the configured imports are
+/// seen and queued, nothing is pending expansion
+pub open spec fn init_state(g: ModuleGraph, w: WalkOptions, roots: Seq<&Url>, it: ModuleEntryIterator) -> bool {
+    &&& *it.graph == g && opts_of(it) == wopts(w) && it.previous_module is None
+    &&& forall|t: Url| is_seen(it, t) <==> is_start(g, wopts(w), roots, t)
+    &&& forall|t: Url| queued(it, t) <==> is_seen(it, t)
+}
+} // verus!
+verus! {
+/// the iterator value `new()` is about to build from its locals
+pub open spec fn mk<'a, 'o>(graph: &'a ModuleGraph, seen: HashSet<&'a Url>, visiting: VecDeque<&'a Url>, w: WalkOptions<'o>) -> ModuleEntryIterator<'a, 'o> {
+    ModuleEntryIterator {
+        graph, seen, visiting, follow_dynamic: w.follow_dynamic, kind: w.kind, check_js: w.check_js,
+        prefer_fast_check_graph: w.prefer_fast_check_graph, previous_module: None,
+    }
+}
+pub open spec fn import_target_upto(o: WOpts, all: Seq<(&String, &Dependency)>, n: int, t: Url) -> bool {
+    exists|i: int| 0 <= i < n && i < all.len() && dep_points_to(o, *(#[trigger] all[i]).1, t)
+}
+} // verus!
+// ---- C15 as theorems over the contracts of new()/next()
+verus! {
+
+pub open spec fn is_pending(it: ModuleEntryIterator, x: Url) -> bool {
+    it.previous_module is Some && entry_val(it.previous_module.unwrap()) == entry_of(*it.graph, x)
+}
+/// the global invariant of a walk started from `roots`
+pub open spec fn winv(it: ModuleEntryIterator, roots: Seq<&Url>) -> bool {
+    let g = *it.graph;
+    let o = opts_of(it);
+    &&& wf(it)
+    &&& forall|t: Url| is_start(g, o, roots, t) ==> is_seen(it, t)
+    &&& forall|t: Url| is_seen(it, t) ==> reach(g, o, roots, t)
+    &&& it.previous_module is Some ==> exists|x: Url| done(it, x) && #[trigger] yields(g, o, x) && is_pending(it, x)
+    &&& forall|x: Url, t: Url| done(it, x) && #[trigger] on_pop(g, o, x, t) ==> is_seen(it, t)
+    &&& forall|x: Url, t: Url| done(it, x) && yields(g, o, x) && !is_pending(it, x) && #[trigger] expands_to(o, entry_of(g, x), t) && expands_from(g, x, t) ==> is_seen(it, t)
+}
+/// (trigger helper: names the source of an expansion edge)
+pub open spec fn expands_from(g: ModuleGraph, x: Url, t: Url) -> bool { true }
+
+pub proof fn lemma_reach_start(g: ModuleGraph, o: WOpts, roots: Seq<&Url>, t: Url)
+    requires is_start(g, o, roots, t),
+    ensures reach(g, o, roots, t),
+{
+    let p = seq![t];
+    assert(is_path(g, o, roots, p));
+    assert(p.last() == t);
+}
+pub proof fn lemma_reach_edge(g: ModuleGraph, o: WOpts, roots: Seq<&Url>, x: Url, t: Url)
+    requires reach(g, o, roots, x), edge(g, o, x, t),
+    ensures reach(g, o, roots, t),
+{
+    let p = choose|p: Seq<Url>| is_path(g, o, roots, p) && #[trigger] p.last() == x;
+    let q = p.push(t);
+    assert forall|i: int| 0 <= i < q.len() - 1 implies edge(g, o, #[trigger] q[i], q[i + 1]) by {
+        if i < p.len() - 1 { assert(q[i] == p[i] && q[i + 1] == p[i + 1]); } else { assert(q[i] == x && q[i + 1] == t); }
+    }
+    assert(q[0] == p[0]);
+    assert(is_path(g, o, roots, q));
+    assert(q.last() == t);
+}
+pub proof fn lemma_reach_closed(g: ModuleGraph, o: WOpts, roots: Seq<&Url>)
+    ensures edge_closed(g, o, |t: Url| reach(g, o, roots, t)),
+{
+    let r = |t: Url| reach(g, o, roots, t);
+    assert forall|x: Url, t: Url| r(x) && #[trigger] edge(g, o, x, t) implies r(t) by { lemma_reach_edge(g, o, roots, x, t); }
+}
+
+/// C15 (start): the state built by `new()` satisfies the invariant
+pub proof fn lemma_inv_init(g: ModuleGraph, w: WalkOptions, roots: Seq<&Url>, it: ModuleEntryIterator)
+    requires init_state(g, w, roots, it), wf(it),
+    ensures winv(it, roots),
+{
+    assert forall|t: Url| is_seen(it, t) implies reach(g, wopts(w), roots, t) by { lemma_reach_start(g, wopts(w), roots, t); }
+}
+
+/// C15 (step): every `next()` preserves it
+pub proof fn lemma_inv_step(a: ModuleEntryIterator, b: ModuleEntryIterator, r: Option<(&Url, ModuleEntryRef)>, roots: Seq<&Url>)
+    requires winv(a, roots), next_rel(a, b, r), wf(b),
+    ensures winv(b, roots),
+{
+    let g = *a.graph;
+    let o = opts_of(a);
+    let prev = opt_entry_val(a.previous_module);
+    let rr = |t: Url| reach(g, o, roots, t);
+    lemma_reach_closed(g, o, roots);
+    assert forall|t: Url| expands_to(o, prev, t) implies rr(t) by {
+        let x = choose|x: Url| done(a, x) && #[trigger] yields(g, o, x) && is_pending(a, x);
+        assert(edge(g, o, x, t));
+        lemma_reach_edge(g, o, roots, x, t);
+    }
+    assert(forall|t: Url| is_seen(a, t) ==> rr(t));
+    assert(edge_closed(g, o, rr));
+    assert forall|t: Url| is_seen(b, t) implies reach(g, o, roots, t) by { assert(rr(t)); }
+    match r {
+        Some((s, e)) => { assert(done(b, *s) && yields(g, o, *s) && is_pending(b, *s)); },
+        None => { },
+    }
+    assert forall|x: Url, t: Url| done(b, x) && #[trigger] on_pop(g, o, x, t) implies is_seen(b, t) by {
+        if done(a, x) { assert(is_seen(a, t)); }
+    }
+    assert forall|x: Url, t: Url| done(b, x) && yields(g, o, x) && !is_pending(b, x) && #[trigger] expands_to(o, entry_of(g, x), t) && expands_from(g, x, t) implies is_seen(b, t) by {
+        if done(a, x) {
+            if is_pending(a, x) { assert(expands_to(o, prev, t)); } else { assert(expands_from(g, x, t)); assert(is_seen(a, t)); }
+        } else {
+            // newly done and yielded: it is the returned one, hence pending in b
+            assert(r is Some && *r.unwrap().0 == x);
+        }
+    }
+}
+
+/// C15 (completeness): when the walk is exhausted everything reachable has been seen and taken
+pub proof fn lemma_exhausted(b: ModuleEntryIterator, roots: Seq<&Url>, t: Url)
+    requires winv(b, roots), b.visiting@.len() == 0, b.previous_module is None, reach(*b.graph, opts_of(b), roots, t),
+    ensures is_seen(b, t) && done(b, t),
+{
+    let g = *b.graph;
+    let o = opts_of(b);
+    let p = choose|p: Seq<Url>| is_path(g, o, roots, p) && #[trigger] p.last() == t;
+    lemma_path_seen(b, roots, p, (p.len() - 1) as int);
+}
+proof fn lemma_path_seen(b: ModuleEntryIterator, roots: Seq<&Url>, p: Seq<Url>, k: int)
+    requires winv(b, roots), b.visiting@.len() == 0, b.previous_module is None, is_path(*b.graph, opts_of(b), roots, p), 0 <= k < p.len(),
+    ensures is_seen(b, p[k]) && done(b, p[k]),
+    decreases k,
+{
+    let g = *b.graph;
+    let o = opts_of(b);
+    if k == 0 { } else {
+        lemma_path_seen(b, roots, p, k - 1);
+        let x = p[k - 1];
+        assert(edge(g, o, x, p[k]));
+        if on_pop(g, o, x, p[k]) { } else { assert(expands_from(g, x, p[k])); }
+    }
+}
+
+// ---- traces
+pub struct WalkTrace<'a, 'o> {
+    pub states: Seq<ModuleEntryIterator<'a, 'o>>,
+    pub results: Seq<Option<(&'a Url, ModuleEntryRef<'a>)>>,
+}
+/// a run of the iterator: new(), then any number of next() calls (no skip_previous_dependencies)
+pub open spec fn is_trace(g: ModuleGraph, w: WalkOptions, roots: Seq<&Url>, tr: WalkTrace) -> bool {
+    &&& tr.states.len() == tr.results.len() + 1
+    &&& init_state(g, w, roots, tr.states[0]) && wf(tr.states[0])
+    &&& forall|i: int| 0 <= i < tr.results.len() ==> next_rel(#[trigger] tr.states[i], tr.states[i + 1], tr.results[i]) && wf(tr.states[i + 1])
+}
+pub open spec fn returned_before(tr: WalkTrace, k: int, x: Url) -> bool {
+    exists|i: int| 0 <= i < k && i < tr.results.len() && (#[trigger] tr.results[i]) is Some && *tr.results[i].unwrap().0 == x
+}
+
+pub proof fn lemma_trace_inv(g: ModuleGraph, w: WalkOptions, roots: Seq<&Url>, tr: WalkTrace, k: int)
+    requires is_trace(g, w, roots, tr), 0 <= k < tr.states.len(),
+    ensures
+        winv(tr.states[k], roots), *tr.states[k].graph == g, opts_of(tr.states[k]) == wopts(w),
+        // everything taken from the queue so far that the walk yields has been returned
+        forall|x: Url| done(tr.states[k], x) && yields(g, wopts(w), x) ==> #[trigger] returned_before(tr, k, x),
+    decreases k,
+{
+    if k == 0 {
+        lemma_inv_init(g, w, roots, tr.states[0]);
+    } else {
+        lemma_trace_inv(g, w, roots, tr, k - 1);
+        let a = tr.states[k - 1];
+        let b = tr.states[k];
+        assert(next_rel(a, b, tr.results[k - 1]));
+        lemma_inv_step(a, b, tr.results[k - 1], roots);
+        assert forall|x: Url| done(b, x) && yields(g, wopts(w), x) implies #[trigger] returned_before(tr, k, x) by {
+            if done(a, x) {
+                assert(returned_before(tr, k - 1, x));
+                let i = choose|i: int| 0 <= i < k - 1 && i < tr.results.len() && (#[trigger] tr.results[i]) is Some && *tr.results[i].unwrap().0 == x;
+                assert(0 <= i < k);
+            } else {
+                assert(tr.results[k - 1] is Some && *tr.results[k - 1].unwrap().0 == x);
+            }
+        }
+    }
+}
+proof fn lemma_done_mono_trace(g: ModuleGraph, w: WalkOptions, roots: Seq<&Url>, tr: WalkTrace, i: int, j: int, x: Url)
+    requires is_trace(g, w, roots, tr), 0 <= i <= j < tr.states.len(), done(tr.states[i], x),
+    ensures done(tr.states[j], x),
+    decreases j - i,
+{
+    if i < j {
+        assert(next_rel(tr.states[i], tr.states[i + 1], tr.results[i]));
+        lemma_done_mono_trace(g, w, roots, tr, i + 1, j, x);
+    }
+}
+
+/// C15: "yields each specifier at most once"
+pub proof fn theorem_yield_at_most_once(g: ModuleGraph, w: WalkOptions, roots: Seq<&Url>, tr: WalkTrace, i: int, j: int)
+    requires is_trace(g, w, roots, tr), 0 <= i < j < tr.results.len(), tr.results[i] is Some, tr.results[j] is Some,
+    ensures *tr.results[i].unwrap().0 != *tr.results[j].unwrap().0, // [yield_at_most_once]
+{
+    let x = *tr.results[i].unwrap().0;
+    assert(next_rel(tr.states[i], tr.states[i + 1], tr.results[i]));
+    assert(done(tr.states[i + 1], x));
+    lemma_done_mono_trace(g, w, roots, tr, i + 1, j, x);
+    assert(next_rel(tr.states[j], tr.states[j + 1], tr.results[j]));
+}
+
+/// C15: "yields exactly the set reachable ..." (soundness): whatever is returned is reachable under
+/// the options, is an entry the options say to yield, and is the graph's own entry for it
+pub proof fn theorem_yields_only_reachable(g: ModuleGraph, w: WalkOptions, roots: Seq<&Url>, tr: WalkTrace, i: int)
+    requires is_trace(g, w, roots, tr), 0 <= i < tr.results.len(), tr.results[i] is Some,
+    ensures
+        reach(g, wopts(w), roots, *tr.results[i].unwrap().0), // [yields_only_reachable]
+        yields(g, wopts(w), *tr.results[i].unwrap().0),
+        entry_val(tr.results[i].unwrap().1) == entry_of(g, *tr.results[i].unwrap().0),
+{
+    lemma_trace_inv(g, w, roots, tr, i);
+    lemma_trace_inv(g, w, roots, tr, i + 1);
+    assert(next_rel(tr.states[i], tr.states[i + 1], tr.results[i]));
+    assert(is_seen(tr.states[i + 1], *tr.results[i].unwrap().0));
+}
+
+/// C15: "... and yields exactly that set" (completeness): once next() has answered None, every
+/// reachable specifier whose entry the options say to yield has been returned
+pub proof fn theorem_exhaustion_yields_all_reachable(g: ModuleGraph, w: WalkOptions, roots: Seq<&Url>, tr: WalkTrace, t: Url)
+    requires
+        is_trace(g, w, roots, tr), tr.results.len() > 0, tr.results.last() is None,
+        reach(g, wopts(w), roots, t), yields(g, wopts(w), t),
+    ensures returned_before(tr, tr.results.len() as int, t), // [exhaustion_yields_all_reachable]
+{
+    let n = tr.results.len() as int;
+    lemma_trace_inv(g, w, roots, tr, n);
+    let b = tr.states[n];
+    assert(next_rel(tr.states[n - 1], b, tr.results[n - 1]));
+    lemma_exhausted(b, roots, t);
+}
+
+} // verus!
+verus! {
+/// front or back: `VecDeque::push_front` / `push_back`
+pub proof fn lemma_push_ends(a: ModuleEntryIterator, b: ModuleEntryIterator, s: &Url)
+    requires
+        wf(a), same_config(a, b), a.previous_module == b.previous_module,
+        b.seen@ == a.seen@.insert(s),
+        a.seen@.contains(s) ==> b.visiting@ == a.visiting@,
+        !a.seen@.contains(s) ==> (b.visiting@ == seq![s] + a.visiting@ || b.visiting@ == a.visiting@.push(s)),
+    ensures
+        wf(b),
+        forall|t: Url| is_seen(b, t) <==> (is_seen(a, t) || t == *s),
+        forall|t: Url| queued(b, t) <==> (queued(a, t) || (is_seen(b, t) && !is_seen(a, t))),
+{
+    if !a.seen@.contains(s) {
+        if b.visiting@ == seq![s] + a.visiting@ {
+            assert(b.visiting@ =~= a.visiting@.insert(0, s));
+        } else {
+            assert(b.visiting@ =~= a.visiting@.insert(a.visiting@.len() as int, s));
+        }
+    }
+    lemma_push_step(a, b, s);
+}
+/// front or back: `VecDeque::pop_front` / `pop_back`
+pub proof fn lemma_pop_ends(a: ModuleEntryIterator, b: ModuleEntryIterator, p: &Url)
+    requires
+        wf(a), same_config(a, b), b.seen@ == a.seen@, a.visiting@.len() > 0,
+        (p == a.visiting@[0] && b.visiting@ == a.visiting@.subrange(1, a.visiting@.len() as int))
+          || (p == a.visiting@[a.visiting@.len() - 1] && b.visiting@ == a.visiting@.subrange(0, a.visiting@.len() - 1)),
+    ensures
+        wf(b), done(b, *p), queued(a, *p),
+        forall|t: Url| t != *p ==> (queued(b, t) <==> queued(a, t)),
+        forall|t: Url| is_seen(b, t) <==> is_seen(a, t),
+{
+    if p == a.visiting@[0] && b.visiting@ == a.visiting@.subrange(1, a.visiting@.len() as int) {
+        assert(b.visiting@ =~= a.visiting@.remove(0));
+    } else {
+        assert(b.visiting@ =~= a.visiting@.remove(a.visiting@.len() - 1));
+    }
+    lemma_pop_step(a, b, p);
 }
 } // verus!
